@@ -7,8 +7,8 @@ def run(ctx):
     n = wc.replay(ctx, cases, ["c03:"])
     ctx.finish("model_checking", {
         "evaluations": n,
-        "distinct_nontrivial": len([c for c in cases if c["tree"]["ty"] in (1, 4)]),
-        "rule": "every generic TTLV tree enumerated by TLC from MCWire.tla (all ten item types x 4 tags x boundary values: every text/byte length 0..17, big-integer magnitudes around byte and 8-byte boundaries with both signs, extreme 32/64-bit patterns; structures of <= 3 children, depth <= 3) with its encoding computed by Wire.tla; the library's MarshalTTLV must produce exactly those bytes, UnmarshalTTLV of those bytes must give the tree, and the harness's independent parser must agree with Wire.tla; non-trivial = structures and big integers",
+        "distinct_nontrivial": len([c for c in cases if c["kind"] == "nest" or c["tree"]["ty"] in (1, 4)]),
+        "rule": "every generic TTLV tree enumerated by TLC from MCWire.tla (all ten item types x 4 tags x boundary values: every text/byte length 0..17, big-integer magnitudes around byte and 8-byte boundaries with both signs, extreme 32/64-bit patterns; structures of <= 3 children, depth <= 3; a text string under 8 / 31..34 / 64 structures) with its encoding computed by Wire.tla; the library's MarshalTTLV must produce exactly those bytes, UnmarshalTTLV of those bytes must give the tree, and the harness's independent parser must agree with Wire.tla; non-trivial = structures and big integers",
         "exhaustive": True, "cases_replayed_against_impl": n, "samples": cases[:1] + cases[500:502],
     }, assumptions=["Wire.tla is written from KMIP 1.4 section 9.1; values are boundary classes, not all 2^64 integers",
                     "scalar values inside real KMIP messages are compared by the C01 driver through the same independent parser"])
